@@ -136,6 +136,11 @@ func rebuiltCheck(c *vecCase, e *cz.Embedding, arg any, r *resT) {
 		default:
 			return // descriptions of the other kinds are C09's business
 		}
+		// decoded defaults do not depend on the rule lists: the objects without rule lists (every combination of
+		// required / default / disabled) carry this check, which keeps it cheap
+		if len(c.S.Props) > 1 && len(p.RequiredIf)+len(p.RequiredIfNot)+len(p.Conflicts) > 0 {
+			return
+		}
 	}
 	report := func(div string, det map[string]any) {
 		det["emb"], det["go_arg"] = e.Name, fmt.Sprintf("%#v", arg)
